@@ -52,7 +52,7 @@ def run(ctx):
         mc(ctx, 2, "{1,2}", "{0,1}", "FALSE")                     # two cache kinds (plain + compressed)
         mc(ctx, 2, "{1,2}", "{0}", "FALSE", cfg="FSCacheMClive.cfg")   # + liveness: everything opened gets closed
         sensitivity(ctx)
-    ntr = ctx.pick(24, 300)
+    ntr = ctx.pick(20, 300)
     recs = ctx.go_test(".", ["c25_"], "^TestVerifC25FSCache$", timeout=2400,
                        env={"VERIF_C25_TRACES": ntr, "VERIF_C25_GATED": ctx.pick(8, 60)})
     ctx.absorb(recs)
